@@ -104,7 +104,8 @@ ApplyDeaths(p, dead, aborting, chk) ==
   LET h == Inherit(p, dead, aborting)
       r == SettleG(h.pc, stack, h.tg, h.grp) IN
   /\ pc' = r.pc /\ stack' = r.stack /\ tg' = r.tg /\ grp' = h.grp /\ origin' = h.origin
-  /\ will' = [t \in Tasks |-> will[t] /\ t \notin dead]
+  \* a will goes with its task: executed (cancelled at its gate) or void (the task failed / ended otherwise)
+  /\ will' = [t \in Tasks |-> will[t] /\ t \notin dead /\ r.pc[t] \in {"gate", "waiting"}]
   /\ obs' = [pc |-> r.pc, check |-> chk]
 
 -----------------------------------------------------------------------------
